@@ -13,11 +13,42 @@ import (
 	"go/parser"
 	"go/token"
 	"os"
+	"strings"
+	"unicode"
 )
 
 type req struct {
 	Dir   string   `json:"dir"`
 	Files []string `json:"files"`
+	Names []string `json:"names"` // instead of a directory: what Go's unicode tables say about these strings
+}
+
+// nameInfo is Go's own answer about a string used as (part of) an identifier or command-line word.
+type nameInfo struct {
+	Name     string `json:"name"`
+	Exported bool   `json:"exported"` // token.IsExported: the first rune is unicode.IsUpper
+	Lower    string `json:"lower"`    // strings.ToLower
+	// Safe: every non-ASCII rune is neither upper nor title case, is its own lower case and folds with
+	// no ASCII rune - on such strings ASCII lower-casing / ASCII upper tests agree with Go's
+	Safe bool `json:"safe"`
+}
+
+func info(n string) nameInfo {
+	safe := true
+	for _, r := range n {
+		if r < 128 {
+			continue
+		}
+		if r == unicode.ReplacementChar || unicode.IsUpper(r) || unicode.IsTitle(r) || unicode.ToLower(r) != r {
+			safe = false
+		}
+		for f := unicode.SimpleFold(r); f != r; f = unicode.SimpleFold(f) {
+			if f < 128 {
+				safe = false
+			}
+		}
+	}
+	return nameInfo{Name: n, Exported: token.IsExported(n), Lower: strings.ToLower(n), Safe: safe}
 }
 
 type fn struct {
@@ -45,11 +76,12 @@ type val struct {
 }
 
 type answer struct {
-	Err    string `json:"err,omitempty"`
-	PkgDoc string `json:"pkgdoc"`
-	Funcs  []fn   `json:"funcs"`
-	Types  []typ  `json:"types"`
-	Vars   []val  `json:"vars"`
+	Names  []nameInfo `json:"names,omitempty"`
+	Err    string     `json:"err,omitempty"`
+	PkgDoc string     `json:"pkgdoc"`
+	Funcs  []fn       `json:"funcs"`
+	Types  []typ      `json:"types"`
+	Vars   []val      `json:"vars"`
 }
 
 func fns(l []*doc.Func) []fn {
@@ -114,6 +146,14 @@ func main() {
 		var r req
 		if err := json.Unmarshal(in.Bytes(), &r); err != nil {
 			enc.Encode(answer{Err: "bad request: " + err.Error()})
+			continue
+		}
+		if r.Names != nil {
+			a := answer{}
+			for _, n := range r.Names {
+				a.Names = append(a.Names, info(n))
+			}
+			enc.Encode(a)
 			continue
 		}
 		enc.Encode(view(r))
